@@ -425,6 +425,11 @@ package main
 //@   ensures [C06] owner_keeps_OJ: old(t.owner) == asUid && old(hasO(t.perUser[asUid].modeWant) && hasJ(t.perUser[asUid].modeWant)) ==> t.owner == asUid && (asUid in t.perUser) && hasO(t.perUser[asUid].modeWant) && hasJ(t.perUser[asUid].modeWant)
 //@   ensures [C06] owner_given_kept: old(t.owner) == asUid ==> (asUid in t.perUser) && (t.perUser[asUid].modeGiven & old(t.perUser[asUid].modeGiven)) == old(t.perUser[asUid].modeGiven)
 //@   ensures [C06,C07] no_self_made_owner: old((asUid in t.perUser) && !t.perUser[asUid].deleted && !hasO(t.perUser[asUid].modeGiven)) ==> t.owner == old(t.owner) && ((asUid in t.perUser) ==> !hasO(t.perUser[asUid].modeGiven))
+// (whoever ends up with O in both modes is the topic's owner: a pending transferee cannot become a second owner by
+// a detour - self-ban and return, leave and resubscribe)
+//@   requires [C06] only_owner_wants_O: (asUid in t.perUser) && !t.perUser[asUid].deleted && hasO(t.perUser[asUid].modeWant) ==> t.owner == asUid
+// (channel readers excepted: their requested mode comes back from the store as it was written, within JRP)
+//@   ensures [C06] effective_owner_is_the_owner: err == nil && !asChan && (asUid in t.perUser) && !t.perUser[asUid].deleted && hasO(t.perUser[asUid].modeWant) ==> t.owner == asUid
 //@   ensures [C06] transfer: t.owner != old(t.owner) ==> t.owner == asUid && old(hasO(t.perUser[asUid].modeGiven)) && ((asUid in t.perUser) ==> hasO(t.perUser[asUid].modeWant)) && ((old(t.owner) in t.perUser) ==> !hasO(t.perUser[old(t.owner)].modeGiven) && !hasO(t.perUser[old(t.owner)].modeWant))
 //@   ensures [C07] others_untouched: forall u types.Uid :: u != asUid && u != old(t.owner) ==> (u in t.perUser) == old(u in t.perUser) && ((u in t.perUser) ==> t.perUser[u].modeWant == old(t.perUser[u].modeWant) && t.perUser[u].modeGiven == old(t.perUser[u].modeGiven))
 //@   ensures [C07] old_owner_only_loses_O: old(t.owner) != asUid && (old(t.owner) in t.perUser) ==> (t.perUser[old(t.owner)].modeWant | types.ModeOwner) == (old(t.perUser[t.owner].modeWant) | types.ModeOwner) && (t.perUser[old(t.owner)].modeGiven | types.ModeOwner) == (old(t.perUser[t.owner].modeGiven) | types.ModeOwner)
@@ -545,6 +550,7 @@ package main
 //@   requires [C06] owner_cached: (t.owner in t.perUser) ==> !t.perUser[t.owner].deleted && !t.perUser[t.owner].isChan && t.cat == types.TopicCatGrp
 //@   requires [C06] owner_known: t.owner == types.ParseUserId(pkt.AsUser) ==> (t.owner in t.perUser)
 //@   requires [C06] owner_grp_only: t.cat != types.TopicCatGrp ==> (forall u types.Uid :: (u in t.perUser) ==> !hasO(t.perUser[u].modeGiven))
+//@   requires [C06] only_owner_wants_O: forall u types.Uid :: (u in t.perUser) && !t.perUser[u].deleted && hasO(t.perUser[u].modeWant) ==> t.owner == u
 //@   requires [C06] defaults_no_owner: !hasO(t.accessAuth) && !hasO(t.accessAnon)
 //@   modifies inferred
 //@   ensures [C07] bystanders_untouched: forall u types.Uid :: u != types.ParseUserId(old(pkt.AsUser)) && u != types.ParseUserId(old(pkt.Set.Sub.User)) && u != old(t.owner) ==> (u in t.perUser) == old(u in t.perUser) && ((u in t.perUser) ==> t.perUser[u].modeWant == old(t.perUser[u].modeWant) && t.perUser[u].modeGiven == old(t.perUser[u].modeGiven))
@@ -721,6 +727,7 @@ package main
 //@   requires [C06] owner_cached: (t.owner in t.perUser) ==> !t.perUser[t.owner].deleted && !t.perUser[t.owner].isChan && t.cat == types.TopicCatGrp
 //@   requires [C06] owner_known: t.owner == types.ParseUserId(msg.AsUser) ==> (t.owner in t.perUser)
 //@   requires [C06] owner_grp_only: t.cat != types.TopicCatGrp ==> (forall u types.Uid :: (u in t.perUser) ==> !hasO(t.perUser[u].modeGiven))
+//@   requires [C06] only_owner_wants_O: forall u types.Uid :: (u in t.perUser) && !t.perUser[u].deleted && hasO(t.perUser[u].modeWant) ==> t.owner == u
 //@   requires [C07] p2p_wf: t.cat == types.TopicCatP2P ==> (t.accessAuth & ^types.ModeCP2P) == 0 && (t.accessAnon & ^types.ModeCP2P) == 0 && (forall u types.Uid :: (u in t.perUser) ==> (t.perUser[u].modeGiven & ^types.ModeCP2P) == 0 && (t.perUser[u].modeGiven & types.ModeApprove) != 0)
 //@   modifies *
 //@   ensures [C10] counted_once_when_attached: forall u types.Uid :: (u in t.perUser) && old(u in t.perUser) && t.perUser[u].online > old(t.perUser[u].online) ==> u == types.ParseUserId(old(msg.AsUser)) && t.perUser[u].online == old(t.perUser[u].online) + 1 && !msg.sess.background && err == nil && (msg.sess.multi == nil ==> (msg.sess in t.sessions))
